@@ -89,7 +89,7 @@ func firstDiff(a, b []byte) int {
 
 func c06Replay(c *Ctx) {
 	client := &http.Client{Transport: &http.Transport{MaxIdleConnsPerHost: 4}}
-	c.Cases("case", c.N(240, 6000), func(i int, r *rand.Rand) {
+	c.Cases("case", c.N(800, 15000), func(i int, r *rand.Rand) {
 		mems := []int64{1, 512, 64 << 10, 0}
 		mem := pick(r, mems)
 		effMem := mem
